@@ -1,6 +1,6 @@
 /- Line-protocol driver for C11 (one JSON request per line, one answer line each).
    {"op":"legal","m":MODEL}                          -> true | JSON array of reasons "where|domain|op|why"
-   {"op":"forms","rows":[[opset, op, nIn, nOut, [attrs…]]…]}  -> JSON array of booleans (nodeLegalB)
+   {"op":"forms","rows":[[opset, op, nIn, nOut, [attrs…]]…]}  -> JSON array of booleans (nodeLegalB, and nodeTypedB when a 6th field lists input dtypes)
    The operator table is the regenerated `J2O.Gen.C11.schemas`.
 -/
 import J2O.Model.ModelTreeJson
@@ -13,8 +13,8 @@ def step (j : Json) : Except String String := do
   match op with
   | "legal" =>
     let m ← jModel (← j.getObjVal? "m")
-    if opsetLegal schemas m then pure "true"
-    else pure (Json.arr ((explain schemas m).toArray.map Json.str)).compress
+    if opsetLegal schemas m && typesLegal schemas m then pure "true"
+    else pure (Json.arr ((explain schemas m ++ explainTypes schemas m).toArray.map Json.str)).compress
   | "forms" =>
     let rows ← (← j.getObjVal? "rows").getArr?
     let mut out : Array Json := #[]
@@ -25,8 +25,18 @@ def step (j : Json) : Except String String := do
       let ni ← a[2]!.getNat?
       let no ← a[3]!.getNat?
       let attrs ← (← a[4]!.getArr?).toList.mapM (·.getStr?)
-      let n : Node := .mk "" o (List.replicate ni "x") (List.replicate no "y") attrs []
-      out := out.push (Json.bool (nodeLegalB schemas v n))
+      let dts ← match a[5]? with
+        | some d => (← d.getArr?).toList.mapM (·.getNat?)
+        | none => pure []
+      if dts.isEmpty then
+        let n : Node := .mk "" o (List.replicate ni "x") (List.replicate no "y") attrs []
+        out := out.push (Json.bool (nodeLegalB schemas v n))
+      else
+        let ins := (List.range dts.length).map (fun k => "x" ++ toString k)
+        let vis : List (String × Annot) := ((List.range dts.length).zip dts).filterMap
+          (fun p => if p.2 = 0 then none else some ("x" ++ toString p.1, (⟨some p.2, none⟩ : Annot)))
+        let n : Node := .mk "" o ins (List.replicate no "y") attrs []
+        out := out.push (Json.bool (nodeLegalB schemas v n && nodeTypedB schemas v vis n))
     pure (Json.arr out).compress
   | _ => throw "unknown op"
 
